@@ -14,18 +14,19 @@ import (
 
 func init() {
 	register(&propSpec{
-		ID:    "C01",
-		Title: "Anything encrypted decrypts back, across time, rotation, caches and processes",
+		ID:            "C01",
+		UsesCallGraph: true,
+		Title:         "Anything encrypted decrypts back, across time, rotation, caches and processes",
 		Explanation: "Structural necessary conditions of C01 (the code's own writer/reader pairing is the oracle): (provenance-encrypt) the record built by EncryptPayload names, as parent, Created() of the very key value whose bytes " +
 			"wrapped the DRK and the id the cache was asked for, Data is the payload under the DRK and Key.EncryptedKey the DRK under that IK; (provenance-decrypt) decryptRow unwraps Key.EncryptedKey with the IK bytes and decrypts " +
 			"Data with exactly that result; the loaders pass the requested (ID, Created) unmodified to Metastore.Load and fetch the parent by the stored ParentKeyMeta; (no-validity-gate-on-read) no expiry/revocation predicate is " +
 			"reachable from DecryptDataRowRecord; (old-keys-addressable) the cache key of a non-latest lookup derives from both ID and Created and nothing ever deletes cache entries or the latest map; (caller-buffers-immutable) the " +
-			"caller's payload and record bytes are never written: no store/copy/Seal-Open destination/wipe on them. Byte-level round-trip equality is not decided.",
+			"caller's payload and record bytes are never written: no store/copy/Seal-Open destination/wipe on them; (shared with C02/C08) a record only names keys whose store succeeded, and cached keys are not destroyed while cached. Byte-level round-trip equality is not decided.",
 		NotDecided:  []string{"equality of decrypted bytes with the original for all payloads/histories/configurations", "what AES-GCM computes", "cross-process behaviour, eviction/rotation interleavings"},
 		Assumptions: []string{"AEAD implementations are inverse pairs (Decrypt(Encrypt(p,k),k)=p)", "Metastore.Load returns what Store stored (C13)"},
 		Tech:        "static analysis: value provenance over SSA (writer/reader agreement), closure-binding call-graph reachability, no-write-through may-flow on caller buffers",
 		NeedU1:      true,
-		Rules:       []func(*Ctx){ruleC01ProvenanceEncrypt, ruleC01ProvenanceDecrypt, ruleC01NoValidityGateOnRead, ruleC01OldKeysAddressable, ruleC01CallerBuffersImmutable, ruleC08RefcountProtocol},
+		Rules:       []func(*Ctx){ruleC01ProvenanceEncrypt, ruleC01ProvenanceDecrypt, ruleC01NoValidityGateOnRead, ruleC01OldKeysAddressable, ruleC01CallerBuffersImmutable, ruleC08RefcountProtocol, ruleC02FreshKeyOnlyIfStored, ruleC02SuccessIsStoreBool},
 	})
 }
 
